@@ -16,6 +16,7 @@ Definition sev_of_wrec (w : wrec) : sev :=
   | WUnknownDirective f u => SUnknownDirective f (u_line u) (u_col u) (spelling_of (u_toks u))
   | WMissingInclude e _ => sev_of_event e
   | WMissingForced f n => SMissingForced f n
+  | WArgError e => SBadCommand e
   end.
 
 (* an event stems from an #include directive at that file and line, of the form it is labelled with *)
